@@ -80,6 +80,17 @@ claim("C10",
       "The concurrent-mix, real-I/O and wall-clock sub-claims of the property are NOT covered (listed as outside in the evidence).",
       "Trusted: executor + ONE deterministic schedule per history, virtual time (natively testing/synctest, 24 vectors cross-validated), model transport. Outside/N-A: concurrent Open/Close/send/config mixes, real sockets/listeners, latency under real scheduling, SECS-I.")
 
+claim("C17",
+      "Bounded symbolic model check of SECS-I blocking: the real splitFrame/appendTo output for every boundary body length against a literal E4 block layout (length byte, R/device, W/stream, function, E/block number 1..N, system bytes, <=244 body bytes, 16-bit checksum), parse + reassembly by the opposite role delivering the message byte-identically exactly once; "
+      "parseBlock accepts exactly the E4 well-formed blocks; the real assembler on 2 (thorough 3) blocks with fully symbolic headers and T4-boundary gaps delivers exactly what a transcription of the E4 9.4.4 receive algorithm delivers and never returns an error.",
+      "Trusted: executor + models, z3, the reference layout/algorithm. Outside: the live line engine and sockets, fully symbolic 244-byte bodies, longer block sequences.")
+
+claim("C18",
+      "Bounded symbolic model check of the per-block line discipline: every single-character corruption of header/body/checksum is rejected by parseBlock (all positions, all replacement values); the real sendBlock against every script of 4 (thorough 5) peer responses x retry limit 0..2 x role: "
+      "never more than limit+1 attempts between yields, ErrSendFailed after exactly limit+1, data written only as the block itself, nil only after an ACK, master never yields, slave delivers exactly the valid blocks it yielded for; receiveBlock answers exactly one ACK (valid) or NAK (anything else); a block retransmitted after a lost ACK is ACKed again and delivered once. "
+      "The two-endpoint exactly-once composition is NOT claimed.",
+      "Trusted: executor + scripted line model, z3. Outside/N-A: end-to-end two-endpoint composition under fault schedules, length-character corruption, multi-block messages over the faulty line.")
+
 for _p, _r in {
     "C03": "check not yet registered in this session (work in progress, see DESIGN.md §3)",
     "C04": "check not yet registered in this session (work in progress, see DESIGN.md §3)",
